@@ -698,6 +698,10 @@ class Exec(object):
             if isinstance(base, VMap):
                 self.assign(tgt.value, base.store(idx, v), st)
                 return
+            if isinstance(base, VRec) and base.cls == "storelog":
+                # an opaque dict of a block contract: the stores are recorded in order
+                self.assign(tgt.value, VRec("storelog", {"log": list(base.fields["log"]) + [(idx, v)]}), st)
+                return
             if isinstance(base, VRec) and base.cls == "dict" and not base.fields and isinstance(lift(idx), (VInt, VRef)):
                 raise Unsupported("dict used with symbolic integer / node keys: give its type (TSMap) in loops[..]['types'] "
                                   "or declare it before the loop")
@@ -1873,6 +1877,21 @@ class Exec(object):
             return VBool(z3.PrefixOf(tostr(args[0]), t))
         if meth == "endswith":
             return VBool(z3.SuffixOf(tostr(args[0]), t))
+        if meth == "index" and len(args) == 1 and isinstance(args[0], str) and len(args[0]) == 1:
+            # str.index(c) is str.find(c) with a ValueError when absent
+            self.safety(st, node, z3.Contains(t, z3.StringVal(args[0])), "ValueError", "substring_present")
+            return self.str_method(s, "find", args, st, node)
+        if meth == "strip" and not args:
+            self.trusted.add("str.strip(): uninterpreted py_strip(s); axioms: a substring of s, and it contains a "
+                             "non-whitespace character exactly when s does")
+            sv = STR_STRIP(t)
+            c1 = z3.String(fresh_name("sc"))
+            ws = [" ", "\t", "\n", "\r", "\x0b", "\x0c"]
+            st.define(z3.Contains(t, sv))
+            st.define(z3.ForAll([c1], z3.Implies(
+                z3.And(z3.Length(c1) == 1, *[c1 != z3.StringVal(w) for w in ws]),
+                z3.Contains(sv, c1) == z3.Contains(t, c1)), patterns=[z3.Contains(sv, c1)]))
+            return VStr(sv)
         if meth in ("find", "rfind"):
             c = args[0]
             if len(args) != 1 or not isinstance(c, str) or len(c) != 1:
@@ -1908,6 +1927,7 @@ class Exec(object):
             lst = spec_split(VStr(t), args[0])
             j = z3.Int(fresh_name("sp"))
             st.assume(lst.n >= 1)
+            st.assume((lst.n >= 2) == z3.Contains(t, z3.StringVal(args[0])))       # one more piece than separators
             st.assume(z3.ForAll([j], z3.Implies(z3.And(0 <= j, j < lst.n),
                                                 z3.Not(z3.Contains(lst.get(j).t, z3.StringVal(args[0])))),
                                 patterns=[lst.get(j).t]))
@@ -1930,6 +1950,7 @@ IS_DIGIT = z3.Function("py_isdigit", sym.StrS, sym.BoolS)
 IS_INT_LIT = z3.Function("py_is_int_literal", sym.StrS, sym.BoolS)
 STR_TO_INT = z3.Function("py_str_to_int", sym.StrS, IntS)
 STR_LOWER = z3.Function("py_lower", sym.StrS, sym.StrS)
+STR_STRIP = z3.Function("py_strip", sym.StrS, sym.StrS)
 INT_TO_STR = z3.Function("py_int_to_str", IntS, sym.StrS)
 
 
